@@ -2,18 +2,19 @@
 progress of every hand-written parser loop (nullability analysis)."""
 import re
 from collections import defaultdict
-from lib.facts import CallGraph, find, walk, is_node, path_of, render, render_stmt, last_seg
-from lib.mirq import Slice, calls_matching, result_exits, edge_dominates
+from lib.facts import CallGraph, find, walk, is_node, path_of, render, render_stmt, render_pat, last_seg
+from lib.mirq import Slice, calls_matching, result_exits, edge_dominates, Inlined, EmptinessObservers, follow_emptiness
 from lib.nullable import Nullability
 from lib import fxn as X
+from lib.locals import local_inits as _local_inits, through_locals as _through_locals
 
 TECHNIQUE = ("call-graph purity from parser::parse (with a positive control), MIR dominance of the remaining-input and error-log tests over the Ok exit, "
              "who-may-write for ParseString.cursor plus a sibling rule on the column/row bookkeeping, possibly-empty merge_tokens().unwrap() detection, and a "
              "nullability fixpoint over the nom combinators deciding progress of every hand-written parser loop")
 EXPLANATION = (
     "Decides structural clauses of C09: (R1) nothing reachable from parser::parse touches files, environment, network, process, clock or randomness (same "
-    "text, same outcome; a positive control on the file loader proves the detector fires); (R2) the Ok(tree) exit of parse() is dominated by the "
-    "`remaining.len() != 0` test and taken only when the error log is empty; (R3) ParseString.cursor is written only by ParseString's own consume methods, "
+    "text, same outcome; a positive control on the file loader proves the detector fires); (R2) the Ok(tree) exit of parse() is dominated by a test of the "
+    "remaining input's length (len()/is_empty() in any spelling, also inside a private helper) and taken only when the error log is empty; (R3) ParseString.cursor is written only by ParseString's own consume methods, "
     "each advancing by the number of graphemes matched, and every column update adds a grapheme display width (never a byte length); (R4) no "
     "`Token::merge_tokens(..).unwrap()` on a token list that may be empty (many0 / opt); (R5) every hand-written loop in the parser has progress evidence: a "
     "consuming parser on its spine, consuming rebinds only, an explicit cursor comparison, or a counter; a loop that rebinds its input from a parser that is "
@@ -77,71 +78,36 @@ def run(F, rep, tier):
     ctl6 = [b for b in F.bodies("mech_core.lib") if hash_iters(b)]
     rep.check(len(ctl6) >= 1, "C09-R6", "control:detector-fires", "the hash-iteration detector finds no HashMap iteration anywhere in mech_core (there are several, e.g. MechTable::eq): the rule is broken",
               sample={"control_sites": len(ctl6)})
-    # ---- R2
+    # ---- R2 (MIR; refactoring-robust: the tests may be spelt len()/is_empty()/comparisons in either polarity, sit behind guard clauses,
+    # and the tail of parse() may live in private helpers - see lib/mirq.py Inlined / EmptinessObservers)
     pb = cg.bodies[root]
-    ok_exits, err_exits = result_exits(pb)
-    sl = Slice(pb)
-    lens = [(i, t) for i, t in pb.calls() if (t.get("f") or t["tf"]).endswith("ParseString::<'a>::len") or (t.get("f") or t["tf"]).endswith("ParseString::len")]
-    empt = [(i, t) for i, t in pb.calls() if re.search(r"Vec::<T, A>::is_empty$", t.get("f") or t["tf"])]
-    rep.floor("C09-R2", "Ok exits of parse()", len(ok_exits), 1)
-    rep.check(bool(lens) and all(any(pb.dominates(li, oe) for li, _ in lens) for oe in ok_exits), "C09-R2", "remaining-length-test-dominates-ok",
-              "parse() can return Ok without testing that the whole input was consumed", pb.where(), sample={"len_calls": [t["l"] for _, t in lens]})
-    # the len test pushes an error when non-zero: a push to the error log is reachable only... ; and the Ok exit is on the is_empty-true edge
-    good = False
-    for ei, et in empt:
-        from lib.mirq import switch_on_call_result
-        sw = switch_on_call_result(pb, ei, et)
-        if sw:
-            swb, t_true, t_false = sw
-            if all(edge_dominates(pb, swb, t_true, oe) for oe in ok_exits):
-                good = True
-    rep.check(good, "C09-R2", "ok-only-when-error-log-empty", "parse() can return Ok while the error log is not empty", pb.where())
-    # after a non-zero remaining length an error is pushed
-    pushes = [(i, t) for i, t in pb.calls() if (t.get("f") or t["tf"]).endswith("Vec::<T, A>::push")]
-    rep.check(any(any(pb.dominates(li, pi) for li, _ in lens) for pi, _ in pushes), "C09-R2", "unparsed-rest-is-logged", "a non-empty rest of the input is not recorded as an error", pb.where())
+    run_r2(cg, pb, rep)
 
     # ---- R3
     syn_items = F.syn("mech_syntax.lib")
-    writers = defaultdict(list)
-    col_updates = []
-    for it in syn_items:
-        if it["k"] not in ("fn", "method") or "formatter" in it.get("mod", ""):
-            continue
-        name = ("%s::%s" % (X.type_head(it["self"]), it["name"])) if it["k"] == "method" else it["name"]
-        for n in walk(it["body"]):
-            tgt = None
-            if n[0] == "assign":
-                tgt, val, op = render(n[1]), n[2], "="
-            elif n[0] == "bin" and n[1].endswith("=") and n[1] not in ("==", "!=", "<=", ">="):
-                tgt, val, op = render(n[2]), n[3], n[1]
-            if tgt is None:
-                continue
-            if re.search(r"(^|\.)cursor$", tgt):
-                writers[name].append((op, render(val)))
-            if re.search(r"location\.col$|location\.row$|\.col$|\.row$", tgt) and re.search(r"location", tgt):
-                col_updates.append((name, tgt, op, val))
-    rep.floor("C09-R3", "writers of ParseString.cursor", len(writers), 4)
-    for w, ups in sorted(writers.items()):
-        ok = w.startswith("ParseString::") and (w.split("::")[1].startswith("consume_") or w.split("::")[1] in ("new", "advance", "reset"))
-        rep.check(ok, "C09-R3", "cursor-writer:%s" % w, "%s writes ParseString.cursor (%s): only ParseString's consume methods may move the cursor" % (w, ups[:2]), sample={"writer": w, "updates": ups})
-        for op, val in ups:
-            rep.check(op == "+=" and re.fullmatch(r"1|gs_len|\w*len\w*|n", val) is not None, "C09-R3", "cursor-advance:%s:%s%s" % (w, op, val),
-                      "%s moves the cursor by `%s %s`: the cursor may only advance by the number of graphemes matched" % (w, op, val))
-    rep.floor("C09-R3", "column/row updates", len(col_updates), 5)
-    for name, tgt, op, val in col_updates:
-        v = render(val)
-        if tgt.endswith(".col"):
-            ok = (op == "+=" and re.search(r"graphemes::width\(", v) is not None) or (op == "=" and v in ("1",)) or (op == "+=" and v == "1")
-            rep.check(ok, "C09-R3", "column-update:%s" % name if ok else "column-update:%s:%s%s" % (name, op, re.sub(r"\W+", "", v)[:30]),
-                      "%s updates the source column with `%s %s`: columns advance by grapheme display width (graphemes::width), a byte or char length makes reported ranges drift outside the input for non-ASCII text" % (name, op, v),
-                      sample={"fn": name, "update": "%s %s %s" % (tgt, op, v)})
-        else:
-            ok = (op == "+=" and v == "1") or op == "="
-            rep.check(ok, "C09-R3", "row-update:%s" % name, "%s updates the source row with `%s %s`" % (name, op, v))
+    run_r3(syn_items, rep)
 
     # ---- R4 merge_tokens(..).unwrap() on possibly empty lists
     n_mt = 0
     items = [it for it in syn_items if "formatter" not in it.get("mod", "")]
+
+    def mt_direct(it):
+        """argument nodes of `Token::merge_tokens(ARG).unwrap()/expect()` in the function"""
+        for mc in find(it["body"], "mcall"):
+            if mc[2] in ("unwrap", "expect") and is_node(mc[1]) and mc[1][0] == "call" and (path_of(mc[1][1]) or "").endswith("merge_tokens"):
+                yield mc[1][2][0] if mc[1][2] else None
+    # a helper that unwraps merge_tokens of one of its own parameters (an extracted `fn merged(tokens) -> Token`): a call of it is a site too,
+    # with the argument bound to that parameter
+    wrappers = {}
+    for it in items:
+        if it["k"] != "fn":
+            continue
+        params = [q[1] for inp in (it["sig"].get("inputs") or []) if isinstance(inp, list) and len(inp) == 2 and is_node(inp[0]) for q in find(inp[0], "pident")][:8]
+        for arg in mt_direct(it):
+            names = [x[1] for x in find(arg, "path")] if arg is not None else []
+            hit = [params.index(nm) for nm in names if nm in params]
+            if hit:
+                wrappers[it["name"]] = hit[0]
     for it in items:
         if it["k"] != "fn":
             continue
@@ -150,8 +116,6 @@ def run(F, rep, tier):
         for st in find(it["body"], "let"):
             if len(st) != 4 or st[2] is None:
                 continue
-            txt = render(st[2])
-            m = re.match(r"^(\w+)\(", txt)
             names = [p[1] for p in find(st[1], "pident")]
             head = None
             if is_node(st[2]) and st[2][0] == "try" and is_node(st[2][1]) and st[2][1][0] == "call" and is_node(st[2][1][1]) and st[2][1][1][0] == "call":
@@ -159,16 +123,19 @@ def run(F, rep, tier):
             for nm in names:
                 if head:
                     produced.setdefault(nm, head)
-        for mc in find(it["body"], "mcall"):
-            if mc[2] in ("unwrap", "expect") and is_node(mc[1]) and mc[1][0] == "call" and (path_of(mc[1][1]) or "").endswith("merge_tokens"):
-                n_mt += 1
-                arg = mc[1][2][0] if mc[1][2] else None
-                names = [x[1] for x in find(arg, "path")] if arg is not None else []
-                heads = {produced.get(n) for n in names if n in produced}
-                empty_possible = heads & {"many0", "opt", "separated_list0", "many_till"}
-                rep.check(not empty_possible, "C09-R4", "%s:merge-tokens-unwrap" % it["name"],
-                          "%s unwraps Token::merge_tokens(%s) although the token list comes from %s and may be empty: the parser panics on such input" % (it["name"], render(arg)[:40], sorted(empty_possible)),
-                          "expanded line %d" % it["line"], sample={"fn": it["name"], "list_from": sorted(h for h in heads if h)})
+        sites4 = list(mt_direct(it))
+        for c in find(it["body"], "call"):
+            w = (path_of(c[1]) or "").split("::")[-1]
+            if w in wrappers and w != it["name"] and len(c[2]) > wrappers[w]:
+                sites4.append(c[2][wrappers[w]])
+        for arg in sites4:
+            n_mt += 1
+            names = [x[1] for x in find(arg, "path")] if arg is not None else []
+            heads = {produced.get(n) for n in names if n in produced}
+            empty_possible = heads & {"many0", "opt", "separated_list0", "many_till"}
+            rep.check(not empty_possible, "C09-R4", "%s:merge-tokens-unwrap" % it["name"],
+                      "%s unwraps Token::merge_tokens(%s) although the token list comes from %s and may be empty: the parser panics on such input" % (it["name"], render(arg)[:40], sorted(empty_possible)),
+                      "expanded line %d" % it["line"], sample={"fn": it["name"], "list_from": sorted(h for h in heads if h)})
     rep.floor("C09-R4", "merge_tokens().unwrap() sites", n_mt, 20)
     # explicit todo!/unimplemented! in code reachable from parse()
     reach_names = {f.split("::")[-1] for f in reach if f.startswith("mech_syntax::")} | {f.split("::")[-2] for f in reach if f.startswith("mech_syntax::") and "{closure" in f.split("::")[-1]}
@@ -200,6 +167,7 @@ def run(F, rep, tier):
                     continue
                 n_loops += 1
                 N.last_rebinds = None
+                N.fn_inits = _local_inits(it["body"])
                 ev = N.loop_progress(n)
                 key = "%s:%s" % (it["name"], kind)
                 if ev:
@@ -220,6 +188,184 @@ def run(F, rep, tier):
     run_r9(F, rep)
     run_r10(F, rep)
     run_r11(F, rep)
+
+
+def run_r3(syn_items, rep):
+    """C09-R3.  Roles by field and type, not by the spelling of locals: a cursor write is an assignment to a field `cursor`; the amount is 1
+    or the `.len()` of a grapheme list (a value made by a `graphemes::*` function or the `graphemes` field), also when it goes through a
+    named local; a column/row update is an assignment to a field `col` / `row` of anything (self.location, a local copy of it, a range
+    end).  A private ParseString method that moves the cursor is accepted when only ParseString's own methods call it (an extracted
+    helper); the floor counts the sanctioned entry points that move the cursor directly or through such a helper."""
+    writers = defaultdict(list)
+    col_updates = []
+    methods = {}
+    for it in syn_items:
+        if it["k"] not in ("fn", "method") or "formatter" in it.get("mod", ""):
+            continue
+        name = ("%s::%s" % (X.type_head(it["self"]), it["name"])) if it["k"] == "method" else it["name"]
+        methods[name] = it
+        inits = _local_inits(it["body"])
+        for n in walk(it["body"]):
+            tgt = None
+            if n[0] == "assign":
+                tgt, val, op = render(n[1]), n[2], "="
+            elif n[0] == "bin" and n[1].endswith("=") and n[1] not in ("==", "!=", "<=", ">="):
+                tgt, val, op = render(n[2]), n[3], n[1]
+            if tgt is None:
+                continue
+            if re.search(r"(^|\.)cursor$", tgt):
+                writers[name].append((op, _through_locals(val, inits), inits))
+            if re.search(r"\.col$|\.row$", tgt):
+                col_updates.append((name, tgt, op, _through_locals(val, inits)))
+
+    def sanctioned(w):
+        return w.startswith("ParseString::") and (w.split("::")[1].startswith("consume_") or w.split("::")[1] in ("new", "advance", "reset"))
+
+    def callers_of(w):
+        m = w.split("::")[1]
+        out = set()
+        for nm, it in methods.items():
+            if nm == w:
+                continue
+            for c in walk(it["body"]):
+                if (c[0] == "mcall" and c[2] == m) or (c[0] == "call" and (path_of(c[1]) or "").split("::")[-1] == m and "::" in (path_of(c[1]) or "")):
+                    out.add(nm)
+        return out
+
+    def grapheme_count(v, inits):
+        if not (is_node(v) and v[0] == "mcall" and v[2] == "len" and not v[4]):
+            return False
+        r = _through_locals(v[1], inits)
+        while is_node(r) and r[0] in ("ref", "paren", "index", "mcall", "try") and not (r[0] == "mcall" and r[2] in ("len",)):
+            if r[0] == "ref":
+                r = _through_locals(r[2], inits)
+            elif r[0] == "mcall" and r[2] in ("clone", "as_slice", "iter", "to_vec", "as_ref", "unwrap"):
+                r = _through_locals(r[1], inits)
+            elif r[0] in ("paren", "index", "try"):
+                r = _through_locals(r[1], inits)
+            else:
+                break
+        if is_node(r) and r[0] == "field" and r[2] == "graphemes":
+            return True
+        return is_node(r) and r[0] == "call" and re.search(r"(^|::)graphemes::\w+$", path_of(r[1]) or "") is not None
+
+    entry_points = set()
+    for w, ups in sorted(writers.items()):
+        ok = sanctioned(w)
+        if ok:
+            entry_points.add(w)
+        elif w.startswith("ParseString::") and methods[w].get("vis", "") == "":
+            cs = callers_of(w)
+            ok = bool(cs) and all(c.startswith("ParseString::") for c in cs)
+            for c in sorted(cs):
+                if sanctioned(c) and c not in writers and c not in entry_points:
+                    # the entry point still moves the cursor, through the helper: same obligation as when it wrote the field itself
+                    rep.ok("C09-R3", "cursor-writer:%s" % c, sample={"writer": c, "through": w})
+            entry_points |= {c for c in cs if sanctioned(c)}
+        rep.check(ok, "C09-R3", "cursor-writer:%s" % w, "%s writes ParseString.cursor (%s): only ParseString's consume methods may move the cursor" % (w, [(o, render(v)) for o, v, _ in ups[:2]]),
+                  sample={"writer": w, "updates": [(o, render(v)) for o, v, _ in ups]})
+        per = defaultdict(int)
+        for op, val, inits in ups:
+            one = is_node(val) and val[0] == "int" and re.fullmatch(r"1(usize)?", str(val[1])) is not None
+            cnt = grapheme_count(val, inits)
+            good = op == "+=" and (one or cnt)
+            form = "+=1" if (op == "+=" and one) else ("+=len(graphemes)" if (op == "+=" and cnt) else "other")
+            per[form] += 1
+            rep.check(good, "C09-R3", "cursor-advance:%s:%s%s" % (w, form, "#%d" % per[form] if per[form] > 1 else ""),
+                      "%s moves the cursor by `%s %s`: the cursor may only advance by the number of graphemes matched" % (w, op, render(val)))
+    rep.floor("C09-R3", "writers of ParseString.cursor", len(entry_points), 4)
+    rep.floor("C09-R3", "column/row updates", len(col_updates), 5)
+    for name, tgt, op, val in col_updates:
+        v = render(val)
+        if tgt.endswith(".col"):
+            ok = (op == "+=" and re.search(r"graphemes::width\(", v) is not None) or (op == "=" and v in ("1",)) or (op == "+=" and v == "1")
+            rep.check(ok, "C09-R3", "column-update:%s" % name if ok else "column-update:%s:%s%s" % (name, op, "len()" if re.search(r"\.len\(\)", v) else ("const" if re.fullmatch(r"\d+\w*", v) else "other")),
+                      "%s updates the source column with `%s %s`: columns advance by grapheme display width (graphemes::width), a byte or char length makes reported ranges drift outside the input for non-ASCII text" % (name, op, v),
+                      sample={"fn": name, "update": "%s %s %s" % (tgt, op, v)})
+        else:
+            ok = (op == "+=" and v == "1") or op == "="
+            rep.check(ok, "C09-R3", "row-update:%s" % name, "%s updates the source row with `%s %s`" % (name, op, v))
+
+
+def _is_parser_ret(ty):
+    """return type of a grammar parser: nom's IResult over ParseString (ParseResult<T>)"""
+    return "nom::internal::Err<" in (ty or "") and "ParseString" in (ty or "")
+
+
+def run_r2(cg, pb, rep):
+    """C09-R2 on MIR.  Roles are found by type and provenance, never by name:
+      * the rest of the input = a ParseString that comes out of a grammar parser (a callee returning ParseResult), directly or through a
+        helper; a *test* of it is a call of an emptiness observer on it (ParseString::len, or any crate function that returns an
+        emptiness observation of its argument, e.g. ParseString::is_empty);
+      * the error log = the collection whose emptiness decides the Ok exit; the push that records the unparsed rest goes to the same
+        collection (same provenance roots);
+      * call sites and exits are followed into non-parser helpers of the crate (two levels), parameters bound to arguments."""
+    def follow(b):
+        return b.crate == "mech_syntax" and "{closure" not in b.fn and not _is_parser_ret(b.locals[0] if b.locals else "")
+    inl = Inlined(cg, follow, depth=2)
+    obs_rest = EmptinessObservers(cg, [(r"(^|::)ParseString(::<'a>)?::len$", "len")])
+    obs_coll = EmptinessObservers(cg, [(r"Vec::<T, A>::is_empty$|VecDeque::<T, A>::is_empty$|\[T\]::is_empty$", ("bool", True)),
+                                       (r"Vec::<T, A>::len$|VecDeque::<T, A>::len$|\[T\]::len$", "len")])
+
+    def yields_parser_result(callee, depth=2):
+        b = cg.bodies.get(callee)
+        if b is None:
+            return False
+        if _is_parser_ret(b.locals[0] if b.locals else ""):
+            return True
+        if depth <= 0 or not follow(b) or "ParseString" not in " ".join(b.locals[:1]):
+            return False
+        return any(yields_parser_result(t.get("f") or t["tf"], depth - 1) for _, t in b.calls())
+
+    ok_exits, err_exits = inl.result_exits(pb)
+    rep.floor("C09-R2", "Ok exits of parse()", len(ok_exits), 1)
+    sites = list(inl.calls(pb))
+    # tests of the remaining input
+    rest_tests = []
+    for ch in sites:
+        o = obs_rest.observes(ch[-1][2])
+        if o is None:
+            continue
+        roots = inl.roots(ch, o[0])
+        if any(r[1] == "call" and yields_parser_result(r[2]) for r in roots):
+            rest_tests.append(ch)
+    rep.check(bool(rest_tests) and all(any(inl.before(a, oe) for a in rest_tests) for oe in ok_exits), "C09-R2", "remaining-length-test-dominates-ok",
+              "parse() can return Ok without testing that the whole input was consumed", pb.where(), sample={"len_calls": [ch[-1][2]["l"] for ch in rest_tests]})
+    # the Ok exit lies on the "collection is empty" edge of a test of the error log
+    good = None
+    undecided = []
+    for ch in sites:
+        body, blk, t = ch[-1]
+        o = obs_coll.observes(t)
+        if o is None:
+            continue
+        fe = follow_emptiness(body, blk, t, o[1])
+        if not fe or fe[0] != "switch":
+            continue
+        verdicts = [inl.edge_before(ch, fe[1], fe[2], oe) for oe in ok_exits]
+        if ok_exits and all(v is True for v in verdicts):
+            good = (ch, o[0])
+            break
+        if any(v is None for v in verdicts) and not any(v is False for v in verdicts):
+            undecided.append(t["l"])
+    if good is None and undecided:
+        # the emptiness test exists but sits in a helper whose outcome reaches the Ok exit through its return value: not analysable here
+        rep.note("undecided", {"rule": "C09-R2", "what": "the error-log emptiness test lies in a helper (lines %s) whose result is propagated by value; edge dominance over the Ok exit not decided" % undecided})
+    else:
+        rep.check(good is not None, "C09-R2", "ok-only-when-error-log-empty", "parse() can return Ok while the error log is not empty", pb.where())
+    # after a non-zero remaining length an error is pushed (to that log)
+    log_roots = {r[1:] for r in inl.roots(good[0], good[1]) if r[0] == 0 and r[1] in ("call", "arg", "agg")} if good else None
+    pushes = []
+    for ch in sites:
+        t = ch[-1][2]
+        if not re.search(r"(Vec|VecDeque)::<T, A>::(push|push_back)$", t.get("f") or t["tf"]) or not t["args"]:
+            continue
+        if log_roots:
+            pr = {r[1:] for r in inl.roots(ch, t["args"][0]) if r[0] == 0}
+            if not (pr & log_roots):
+                continue
+        pushes.append(ch)
+    rep.check(any(inl.before(a, p) for a in rest_tests for p in pushes), "C09-R2", "unparsed-rest-is-logged", "a non-empty rest of the input is not recorded as an error", pb.where())
 
 
 def run_r7(F, rep):
@@ -267,6 +413,7 @@ def run_r7(F, rep):
     n_sites = 0
     for n, it in sorted(fns.items()):
         per = {}
+        inits7 = _local_inits(it["body"])
         for mm in find(it["body"], "match"):
             arms = mm[2]
             wild = [a for a in arms if render_pat(a[0]) == "_" and a[1] is None]
@@ -275,7 +422,8 @@ def run_r7(F, rep):
             wtxt = render(wild[0][2])
             if not re.search(r"panicking::|unreachable|todo!|unimplemented!|panic!", wtxt):
                 continue
-            callee = [x[1] for x in walk(mm[1]) if x[0] == "path" and x[1] in ret_enum]
+            scrut = _through_locals(mm[1], inits7)
+            callee = [x[1] for x in walk(scrut) if x[0] == "path" and x[1] in ret_enum]
             if not callee:
                 rep.note("panicking_wildcards_not_on_a_parser_result", "%s: match %s" % (n, render(mm[1])[:50]))
                 continue
@@ -314,13 +462,14 @@ def run_r8(F, rep):
         if it["k"] not in ("fn", "method") or not it.get("body") or "formatter" in (it.get("mod") or ""):
             continue
         per = 0
+        inits8 = _local_inits(it["body"])
         for s in find(it["body"], "struct"):
             if s[1].split("::")[-1] != "ParseError":
                 continue
             n += 1
             for fname, fval in s[2]:
                 if fname == "cause_range":
-                    txt = render(fval).replace(" ", "")
+                    txt = render(_through_locals(fval, inits8)).replace(" ", "")
                     per += 1
                     bad = "SourceRange::default()" in txt or "Default::default()" in txt
                     rep.check(not bad, "C09-R8", "%s:cause_range#%d" % (it["name"], per),
@@ -342,24 +491,44 @@ def run_r9(F, rep):
     if not rep.check(len(its) == 1, "C09-R9", "anchor:format_error", "TextFormatter::format_error not found"):
         return
     body = its[0]["body"]
+    inits = _local_inits(body)
+
+    def counted_list(e):
+        """text of LIST in `LIST.len()` (seen through named locals) or None"""
+        e = _through_locals(e, inits)
+        if is_node(e) and e[0] == "mcall" and e[2] == "len" and not e[4]:
+            return render(e[1]).replace(" ", "").lstrip("&")
+        return None
     shown = {}
     for st in find(body, "let"):
-        if len(st) == 4 and st[2] is not None and st[1][0] == "pident":
-            for c in find(st[2], "call"):
-                if (path_of(c[1]) or "").endswith("min") and c[2]:
-                    lens = [render(m[1]) for a in c[2] for m in find(a, "mcall") if m[2] == "len"]
-                    if lens:
-                        shown[st[1][1]] = lens[0]
+        if len(st) == 4 and st[2] is not None and st[1][0] in ("pident", "ptype"):
+            nm = st[1][1] if st[1][0] == "pident" else (st[1][1][1] if is_node(st[1][1]) and st[1][1][0] == "pident" else None)
+            if nm is None:
+                continue
+            cands = []
+            for c in find(st[2], "call"):          # usize::min(a, b) / cmp::min(a, b)
+                if (path_of(c[1]) or "").split("::")[-1] == "min" and c[2]:
+                    cands.append(list(c[2]))
+            for c in find(st[2], "mcall"):         # a.min(b)
+                if c[2] == "min" and len(c[4]) == 1:
+                    cands.append([c[1], c[4][0]])
+            for args in cands:
+                lens = [x for x in (counted_list(a) for a in args) if x]
+                if lens:
+                    shown[nm] = lens[0]
     rep.floor("C09-R9", "shown-count definitions (n = min(list.len(), K))", len(shown), 1)
     n = 0
-    for b in find(body, "bin"):
-        if b[1] == "-" and is_node(b[3]) and b[3][0] == "path" and b[3][1] in shown:
+    subs = [(b, b[2], b[3]) for b in find(body, "bin") if b[1] == "-"]
+    subs += [(m, m[1], m[4][0]) for m in find(body, "mcall") if m[2] in ("saturating_sub", "checked_sub", "wrapping_sub") and len(m[4]) == 1]
+    for b, lhs_e, rhs_e in subs:
+        rhs_e = rhs_e[1] if is_node(rhs_e) and rhs_e[0] == "paren" else rhs_e
+        if is_node(rhs_e) and rhs_e[0] == "path" and rhs_e[1] in shown:
             n += 1
-            lhs = [render(m[1]) for m in find(b[2], "mcall") if m[2] == "len"]
-            ok = bool(lhs) and lhs[0].replace(" ", "") == shown[b[3][1]].replace(" ", "")
+            lhs = counted_list(lhs_e)
+            ok = lhs is not None and lhs == shown[rhs_e[1]]
             rep.check(ok, "C09-R9", "format_error:remaining-count",
                       "format_error computes the number of errors not shown as `%s`, but %s counts `%s`: the two lengths belong to different fields, so the subtraction underflows (panic) or reports a bogus count" % (
-                          render(b)[:50], b[3][1], shown[b[3][1]]), "TextFormatter::format_error (mech_syntax.lib)", sample={"minuend": lhs, "shown_list": shown[b[3][1]]})
+                          render(b)[:50], rhs_e[1], shown[rhs_e[1]]), "TextFormatter::format_error (mech_syntax.lib)", sample={"minuend": lhs, "shown_list": shown[rhs_e[1]]})
     rep.floor("C09-R9", "remaining-count subtractions", n, 1)
 
 
@@ -374,25 +543,31 @@ def run_r10(F, rep):
     for it in F.syn("mech_syntax.lib"):
         if it["k"] not in ("fn", "method") or not it.get("body") or "formatter" in (it.get("mod") or ""):
             continue
-        for ix, facts in G.sites(it["body"], "index"):
+        n_key = defaultdict(int)
+        inits10 = _local_inits(it["body"])
+        # panics=True: `assert!(..)` / `if c { panic!() }` in expanded form (a call of core::panicking::*) ends a path like `return` does
+        for ix, facts in G.sites(it["body"], "index", panics=True):
             base, idx = ix[1], ix[2]
             where = "%s::%s (mech_syntax.lib)" % (it.get("mod") or it.get("self") or "", it["name"])
             k = G._int(idx)
             if is_node(idx) and idx[0] == "range":
                 n_other += 1
                 continue
+            idx = _through_locals(idx, inits10)       # `let at = s.cursor; s.graphemes[at]`
             if is_node(base) and base[0] == "field" and base[2] == "graphemes" and is_node(idx) and idx[0] == "field" and idx[2] == "cursor" and render(base[1]) == render(idx[1]):
                 n_cur += 1
-                ok = G.nonempty_fact(facts, base[1])
+                ok = G.nonempty_ext(facts, base[1], inits10)
                 rep.check(ok, "C09-R10", "cursor-read:%s" % it["name"] if ok else "cursor-read-unguarded:%s" % it["name"],
                           "%s reads %s with no `%s.is_empty()` test on the path: at end of input the parser panics with an index out of bounds instead of reporting an error" % (
                               it["name"], render(ix), render(base[1])), where)
                 continue
             if k is not None:
                 n_const += 1
-                lb = G.len_lower_bound(facts, base)
+                lb = G.len_lower_bound_ext(facts, base, inits10)
                 ok = lb > k
-                rep.check(ok, "C09-R10", "const-index:%s:%s[%d]" % (it["name"], re.sub(r"[\s&()*]", "", render(base))[:30], k) + ("" if ok else ":len>=%d" % lb),
+                # key: function + index (+ occurrence), no local names
+                n_key[k] += 1
+                rep.check(ok, "C09-R10", "const-index:%s:[%d]%s" % (it["name"], k, "#%d" % n_key[k] if n_key[k] > 1 else "") + ("" if ok else ":len>=%d" % lb),
                           "%s reads %s where the guards on the path only imply %s.len() >= %d: an input that leaves the list shorter panics the parser (index out of bounds) instead of producing an error report" % (
                               it["name"], render(ix), render(base), lb), where, sample={"fn": it["name"], "read": render(ix), "len_lower_bound": lb})
                 continue
@@ -402,7 +577,9 @@ def run_r10(F, rep):
     for it in F.syn("mech_syntax.lib"):
         if it["k"] not in ("fn", "method") or not it.get("body") or "formatter" in (it.get("mod") or ""):
             continue
-        for mc, facts in G.sites(it["body"], "mcall"):
+        n_key = defaultdict(int)
+        # belief rule: what the author asserts (assert!, debug_assert!) counts as tested, and `A || B` with `!B` gives `A`
+        for mc, facts in G.sites(it["body"], "mcall", panics=True, debug_asserts=True):
             if mc[2] not in ("unwrap", "expect"):
                 continue
             recv = mc[1]
@@ -417,16 +594,18 @@ def run_r10(F, rep):
                     n_unw_other += 1
                     continue
                 n_unw += 1
-                lb = G.len_lower_bound(facts, recv[1])
-                rep.check(lb >= 1, "C09-R10", "unwrap:%s:%s" % (it["name"], re.sub(r"\s", "", render(recv))[:40]) + ("" if lb >= 1 else ":unguarded"),
+                lb = G.len_lower_bound_ext(facts, recv[1], _local_inits(it["body"]))
+                n_key[recv[2]] += 1
+                rep.check(lb >= 1, "C09-R10", "unwrap:%s:%s()%s" % (it["name"], recv[2], "#%d" % n_key[recv[2]] if n_key[recv[2]] > 1 else "") + ("" if lb >= 1 else ":unguarded"),
                           "%s unwraps %s with no guard implying %s is non-empty on that path: the parser panics instead of reporting an error" % (it["name"], render(recv), render(recv[1])), where)
             elif is_node(recv) and recv[0] == "path" and any(
-                    c[0] == "mcall" and c[2] in ("is_none", "is_some") and render(c[1]) == render(recv) for c, _ in G.atoms(facts)) or (
+                    c[0] == "mcall" and c[2] in ("is_none", "is_some") and render(c[1]) == render(recv) for c, _ in G.atoms_closed(facts)) or (
                     is_node(recv) and recv[0] == "path" and any(isinstance(x, list) and x and x[0] == "mcall" and x[2] in ("is_none", "is_some") and render(x[1]) == render(recv)
                                                                for x in walk(it["body"]))):
                 n_unw += 1
-                ok = any(c[0] == "mcall" and render(c[1]) == render(recv) and ((c[2] == "is_none" and not pol) or (c[2] == "is_some" and pol)) for c, pol in G.atoms(facts))
-                rep.check(ok, "C09-R10", "unwrap:%s:%s" % (it["name"], render(recv)[:30]) + ("" if ok else ":unguarded"),
+                ok = any(c[0] == "mcall" and render(c[1]) == render(recv) and ((c[2] == "is_none" and not pol) or (c[2] == "is_some" and pol)) for c, pol in G.atoms_closed(facts))
+                n_key["option"] += 1
+                rep.check(ok, "C09-R10", "unwrap:%s:option%s" % (it["name"], "#%d" % n_key["option"] if n_key["option"] > 1 else "") + ("" if ok else ":unguarded"),
                           "%s unwraps %s on a path where neither `%s.is_none()` was tested false nor `%s.is_some()` true, although the function tests it elsewhere: a None here panics the parser" % (
                               it["name"], render(recv), render(recv), render(recv)), where)
             else:
@@ -435,6 +614,115 @@ def run_r10(F, rep):
     rep.note("C09-R10-not-decided", "%d element reads / slices with a computed index (cursor arithmetic, line tables) are not decided by this rule" % n_other)
     rep.floor("C09-R10", "cursor reads examined", n_cur, 100)
     rep.note("C09-R10-constant-index-reads", n_const)
+
+
+def _empty_sum(e):
+    """the value of an accumulation over the graphemes of an EMPTY line: `ITER.sum()` / `.count()` -> 0, `ITER.fold(init, ..)` -> init"""
+    from lib.minieval import ev, NoEval
+    if is_node(e) and e[0] == "mcall":
+        if e[2] in ("sum", "count") and not e[4]:
+            return 0
+        if e[2] == "fold" and len(e[4]) == 2:
+            return ev(e[4][0], {})
+    raise NoEval("not an accumulation")
+
+
+def _textlen_exits(stmts, env):
+    """evaluate a `-> usize` body that looks a line up (Option) and adds up widths: returns ([values returned when the line is missing],
+    value returned for a line without graphemes or None).  Raises NoEval for anything it cannot evaluate."""
+    from lib.minieval import ev, NoEval
+    env = dict(env)
+    missing = []
+
+    def none_arm(arms):
+        for a in arms:
+            pt = render_pat(a[0])
+            if pt in ("None", "_") or pt.endswith("::None"):
+                return a
+        return None
+
+    def value(e):
+        """-> value of expression e for an empty line; appends to `missing`"""
+        while is_node(e) and e[0] in ("paren",):
+            e = e[1]
+        if is_node(e) and e[0] in ("block", "unsafe"):
+            m2, v = _textlen_exits(e[1], env)
+            missing.extend(m2)
+            return v
+        if is_node(e) and e[0] == "match":
+            na = none_arm(e[2])
+            if na is not None and len(e[2]) == 2:
+                other = [a for a in e[2] if a is not na][0]
+                nb = na[2]
+                if is_node(nb) and nb[0] == "ret":
+                    missing.append(ev(nb[1], {}))
+                else:
+                    missing.append(value(nb))
+                return value(other[2])
+            raise NoEval("match")
+        if is_node(e) and e[0] == "if" and is_node(e[1]) and e[1][0] == "letc" and e[3] is not None:
+            missing.append(value(e[3]))
+            return value(["block", e[2]])
+        if is_node(e) and e[0] == "mcall" and e[2] == "map_or" and len(e[4]) == 2 and is_node(e[4][1]) and e[4][1][0] == "closure":
+            missing.append(ev(e[4][0], {}))
+            return value(e[4][1][2])
+        if is_node(e) and e[0] == "mcall" and e[2] == "unwrap_or" and len(e[4]) == 1 and is_node(e[1]) and e[1][0] == "mcall" and e[1][2] == "map" and e[1][4] and e[1][4][0][0] == "closure":
+            missing.append(ev(e[4][0], {}))
+            return value(e[1][4][0][2])
+        try:
+            return ev(e, env)
+        except NoEval:
+            # `ITER.sum::<usize>() + 1` and the like
+            if is_node(e) and e[0] == "bin" and e[1] in ("+", "-", "*"):
+                a, b = value(e[2]), value(e[3])
+                return {"+": a + b, "-": a - b, "*": a * b}[e[1]]
+            return _empty_sum(e)
+
+    result = None
+    for i, st in enumerate(stmts):
+        last = i == len(stmts) - 1
+        if st[0] == "let":
+            p = st[1]
+            if is_node(p) and p[0] == "ptype":
+                p = p[1]
+            init = st[2]
+            if len(st) > 3 and st[3] is not None:
+                # let-else: the else block is what happens when the line is missing
+                els = st[3]
+                blk = els[1] if is_node(els) and els[0] in ("block", "unsafe") else [["expr", els, False]]
+                rets = [r_ for r_ in find(blk, "ret") if r_[1] is not None]
+                if len(rets) != 1:
+                    raise NoEval("let-else")
+                missing.append(ev(rets[0][1], {}))
+                continue
+            if is_node(init) and init[0] == "match" and none_arm(init[2]) is not None:
+                nb = none_arm(init[2])[2]
+                while is_node(nb) and nb[0] in ("block", "unsafe") and len(nb[1]) == 1 and nb[1][0][0] == "expr":
+                    nb = nb[1][0][1]
+                if is_node(nb) and nb[0] == "ret" and nb[1] is not None:
+                    missing.append(ev(nb[1], {}))
+                    continue
+                raise NoEval("match-let")
+            if is_node(p) and p[0] == "pident" and init is not None:
+                try:
+                    env[p[1]] = value(init)
+                except NoEval:
+                    pass
+            continue
+        if st[0] == "expr":
+            e = st[1]
+            if last and not (len(st) > 2 and st[2]):
+                result = value(e)
+            elif is_node(e) and e[0] == "ret" and e[1] is not None and last:
+                result = value(e[1])
+            elif is_node(e) and e[0] == "if" and e[3] is None:
+                # `if <line missing> { return K }`
+                rets = [r_ for r_ in find(e[2], "ret") if r_[1] is not None]
+                if rets and is_node(e[1]) and any(True for m in find(e[1], "mcall") if m[2] in ("is_none", "is_some")) or (rets and is_node(e[1]) and e[1][0] == "letc"):
+                    for r_ in rets:
+                        missing.append(ev(r_[1], {}))
+            # `for` loops over the (empty) grapheme range do not run; other statements are ignored
+    return missing, result
 
 
 def run_r11(F, rep):
@@ -449,24 +737,17 @@ def run_r11(F, rep):
     if not rep.check(len(tl) == 1, "C09-R11", "anchor:get_textlen_by_linenum", "TextFormatter::get_textlen_by_linenum not found (%d)" % len(tl)):
         return
     body = tl[0]["body"]
-    early = [r_[1] for r_ in find(body, "ret") if r_[1] is not None]
-    accs = {}
-    for st in body:
-        if st[0] == "let" and st[1][0] == "pident" and st[1][3] and st[2] is not None:
-            try:
-                accs[st[1][1]] = ev(st[2], {})
-            except NoEval:
-                pass
-    tail = body[-1][1] if body and body[-1][0] == "expr" else None
-    ok_shape = len(early) == 1 and tail is not None and bool(accs)
-    if not rep.check(ok_shape, "C09-R11", "anchor:two-exits", "get_textlen_by_linenum no longer has the (missing line => constant, line => accumulated width) shape"):
-        return
+    # the function in any of its equivalent shapes (statement form with an early `return K`, let-else, a tail `match`/`if let` on the
+    # line range, `map_or(K, |..| ..)`, the width sum as a `for` accumulator or as an iterator `.sum()`): see _textlen_exits
     try:
-        k_missing = ev(early[0], {})
-        k_empty = ev(tail, dict(accs))
+        missing, empty = _textlen_exits(body, {})
     except NoEval as e:
         rep.bad("C09-R11", "undecided:get_textlen_by_linenum", "exit values not evaluable (%s)" % e, "get_textlen_by_linenum (mech_syntax.lib)")
         return
+    ok_shape = len(missing) >= 1 and len(set(missing)) == 1 and empty is not None
+    if not rep.check(ok_shape, "C09-R11", "anchor:two-exits", "get_textlen_by_linenum no longer has the (missing line => constant, line => accumulated width) shape"):
+        return
+    k_missing, k_empty = missing[0], empty
     init_col = None
     for it in items:
         if it["k"] == "method" and it["name"] == "new" and "ParseString" in (it.get("self") or "") and it.get("body"):
